@@ -748,6 +748,10 @@ def run(ctx, args):
     n_scripts += len(jobs)
     n_lines += sum(len(j[1]) for j in jobs)
 
+    # 4. end-to-end route (thorough tier, or VERIF_C10_E2E=1)
+    if not quick or os.environ.get("VERIF_C10_E2E") == "1":
+        e2e_part(ctx)
+
     # verdict on the correspondence
     if mismatches:
         cfg, sc, r, m = mismatches[0]
@@ -776,3 +780,53 @@ def run(ctx, args):
         "evaluations": n_lines, "distinct_nontrivial": n_scripts,
         "rule": "evaluations = protocol lines (scheduler choices incl. configuration lines) executed by the REAL code and the model; distinct_nontrivial = distinct schedules (scripts); exhaustive scripts cover every transition of the model state graph of each small configuration",
         "input_distribution": dist, "correspondence_mismatches": len(mismatches)})
+
+
+# ------------------------------------------------------------------ end-to-end route (llgo-compiled programs)
+def e2e_part(ctx):
+    """llgo-compiled multi-goroutine programs with schedule-independent results, at -O0 and -O2, every run under a
+    timeout (a hang is an observation); expected output = the reference Go toolchain's output of the same program."""
+    from vlib import e2e
+    src = open(os.path.join(H, "e2e", "main.go.txt")).read()
+    d = os.path.join(ctx.scratch, "e2e-c10")
+    e2e.write_module(d, {"main.go": src})
+    refbin = os.path.join(d, "ref.bin")
+    p = e2e.go_run_reference(ctx, d, refbin)
+    if p.returncode != 0:
+        raise HarnessBuildError("reference build of the C10 e2e program failed: " + (p.stdout + p.stderr)[-2000:])
+    _, referr, rc = e2e.run_prog(refbin, timeout=60)
+    expected = [l for l in referr.split("\n") if l]
+    cut = expected.index("begin sendThenClose")
+    e2e.build_llgo(ctx)
+    obs = {}
+    for opt in ("-O0", "-O2"):
+        out = os.path.join(d, "prog%s.bin" % opt)
+        p = e2e.llgo_build(ctx, d, out, opt=opt)
+        if p.returncode != 0:
+            raise HarnessBuildError("llgo build %s of the C10 e2e program failed: %s" % (opt, (p.stdout + p.stderr)[-3000:]))
+        _, err, rc = e2e.run_prog(out, timeout=40)
+        got = [l for l in err.split("\n") if l]
+        obs[opt] = {"rc": rc, "lines": len(got), "tail": got[-3:]}
+        # schedule-independent part
+        if got[:cut] != expected[:cut]:
+            k = next((i for i in range(min(len(got), cut)) if got[i] != expected[i]), min(len(got), cut))
+            section = next((l.split()[1] for l in reversed(expected[:k + 1]) if l.startswith("begin ")), "?")
+            ctx.report("e2e:%s:%s" % (section, opt), "llgo-compiled program deviates from Go in section %s at %s (rc=%s)" % (section, opt, rc),
+                       {"opt": opt, "section": section, "expected": expected[max(0, k - 2):k + 3], "got": got[max(0, k - 2):k + 3], "rc": rc})
+            continue
+        rest = got[cut:]
+        bad = next((l for l in rest if l.startswith("sendThenClose bad")), None)
+        if bad is None:
+            ctx.report(KEY_STALL if rc == "timeout" else "e2e:sendThenClose:" + opt, "sendThenClose did not finish (rc=%s)" % rc, {"opt": opt, "got": rest})
+        elif bad != "sendThenClose bad 0":
+            ctx.report(KEY_CLOSE, "e2e: `c <- 42; close(c)` against `v, ok := <-c`: " + bad, {"opt": opt, "line": bad})
+        if bad is not None and "end" not in rest:
+            if rc == "timeout":
+                ctx.report(KEY_STALL, "e2e: ping-pong on one unbuffered channel hangs (timeout)", {"opt": opt, "got": rest})
+            else:
+                ctx.report("e2e:pingPongOneChannel:" + opt, "wrong output / crash rc=%s" % rc, {"opt": opt, "got": rest})
+        elif bad is not None and rest[-2:] != expected[-2:]:
+            ctx.report("e2e:pingPongOneChannel:" + opt, "wrong output", {"opt": opt, "got": rest[-3:], "expected": expected[-3:]})
+    ctx.coverage["e2e"] = {"program": "harness/c10/e2e/main.go.txt", "sections": [l.split()[1] for l in expected if l.startswith("begin ")],
+                           "observations": obs}
+    ctx.log("e2e:", obs)
